@@ -291,77 +291,115 @@ class Failure:
         self.test_id, self.invariant, self.event_index, self.event, self.lines, self.tlc_tail = test_id, invariant, event_index, event, lines, tlc_tail
 
 
-def validate_trace(trace_path, invs, wdir, module="SodTrace", dev=(), timeout=900, max_fail=25, heap="3g", second=None):
-    """Validate a concatenated trace with TLC.  On a violation the failing test
-    is recorded and validation resumes with the following test, so the rest of
-    the trace is still checked.  Returns (failures, states, tlc_runs)."""
+def _locate(r, part):
+    """Map TLC's reported position to (index of the failing test in part, event index, event)."""
+    l = r.last_l()
+    if l is None:
+        raise Inconclusive("TLC rejected a trace without a position:\n" + r.out[-3000:])
+    ev_line = (l - 1) if r.violated else l
+    n = 0
+    for k, (tid, lines) in enumerate(part):
+        if n + len(lines) >= ev_line:
+            idx = ev_line - n - 1
+            try:
+                evt = json.loads(lines[idx]) if 0 <= idx < len(lines) else None
+            except Exception:
+                evt = None
+            return k, idx, evt
+        n += len(lines)
+    raise Inconclusive("cannot map TLC position %s into the trace\n%s" % (l, r.out[-2000:]))
+
+
+def validate_trace(trace_path, invs, wdir, module="SodTrace", dev=(), timeout=900, max_fail=25, heap="3g", second=None, known=()):
+    """Validate a concatenated trace with TLC (deviations off).  A rejected test is
+    re-validated with the listed known deviations enabled: accepted => known finding,
+    still rejected => violation.  Validation always resumes after the failing test,
+    so the rest of the trace is checked.  Returns (failures, states, runs, known_hits)."""
     tests = split_tests(trace_path)
     tests2 = split_tests(second) if second else None
     if tests2 is not None:
         if [t[0] for t in tests] != [t[0] for t in tests2]:
             raise Inconclusive("paired traces do not contain the same tests: %s %s" % (trace_path, second))
-        # lock-step consumption: pad the shorter recording of each test (a pad never equals a real event)
         for a, b in zip(tests, tests2):
             while len(a[1]) < len(b[1]):
                 a[1].append('{"ev":"pad"}\n')
             while len(b[1]) < len(a[1]):
                 b[1].append('{"ev":"pad"}\n')
     os.makedirs(wdir, exist_ok=True)
-    failures, states, runs = [], 0, 0
-    pos = 0
-    while pos < len(tests):
-        part = tests[pos:]
-        fp = os.path.join(wdir, "part-%d.ndjson" % runs)
+    failures, hits = [], set()
+    stat = {"states": 0, "runs": 0}
+
+    def run(start, devs, count=None):
+        part = tests[start:] if count is None else tests[start:start + count]
+        fp = os.path.join(wdir, "part-%d.ndjson" % stat["runs"])
         with open(fp, "w") as f:
             for _, lines in part:
                 f.writelines(lines)
         extra = ""
+        fp2 = None
         if tests2 is not None:
-            fp2 = os.path.join(wdir, "partB-%d.ndjson" % runs)
+            fp2 = os.path.join(wdir, "partB-%d.ndjson" % stat["runs"])
             with open(fp2, "w") as f:
-                for _, lines in tests2[pos:]:
+                for _, lines in (tests2[start:] if count is None else tests2[start:start + count]):
                     f.writelines(lines)
             extra = '  TraceFileB = "%s"\n' % fp2
-        cfg = TRACE_CFG % {"file": fp, "extra": extra, "dev": ", ".join('"%s"' % d for d in dev), "invs": " ".join(invs)}
-        r = tlc(module, cfg, wdir, workers=1, timeout=timeout, heap=heap, name="%s_%d" % (module, runs))
-        runs += 1
-        states += r.distinct
+        cfg = TRACE_CFG % {"file": fp, "extra": extra, "dev": ", ".join('"%s"' % d for d in devs), "invs": " ".join(invs)}
+        r = tlc(module, cfg, wdir, workers=1, timeout=timeout, heap=heap, name="%s_%d" % (module, stat["runs"]))
+        stat["runs"] += 1
+        stat["states"] += r.distinct
         os.remove(fp)
+        if fp2:
+            os.remove(fp2)
         if r.ok():
-            break
+            return None
         if r.timeout:
             raise Inconclusive("TLC timed out validating " + trace_path)
-        if r.violated or r.post_failed:
-            l = r.last_l()
-            if l is None:
-                raise Inconclusive("TLC rejected a trace without a position:\n" + r.out[-3000:])
-            # event consumed last is line l-1 (1-based) for invariants; for a stuck trace it is line l
-            ev_line = (l - 1) if r.violated else l
-            n = 0
-            hit = None
-            for k, (tid, lines) in enumerate(part):
-                if n + len(lines) >= ev_line:
-                    hit = k
-                    break
-                n += len(lines)
-            if hit is None:
-                raise Inconclusive("cannot map TLC position %s into the trace\n%s" % (l, r.out[-2000:]))
-            tid, lines = part[hit]
-            idx = ev_line - n - 1
-            try:
-                evt = json.loads(lines[idx]) if 0 <= idx < len(lines) else None
-            except Exception:
-                evt = None
-            inv = r.violated[0] if r.violated else "TraceAccepted(stuck)"
-            fl = Failure(tid, inv, idx, evt, lines, r.out[-1500:])
-            fl.lines2 = tests2[pos + hit][1] if tests2 is not None else None
-            failures.append(fl)
-            pos += hit + 1
-            if len(failures) >= max_fail:
-                break
+        if not (r.violated or r.post_failed):
+            raise Inconclusive("TLC failed on %s:\n%s" % (trace_path, r.out[-4000:]))
+        k, idx, evt = _locate(r, part)
+        return k, idx, evt, (r.violated[0] if r.violated else "TraceAccepted(stuck)"), r.out[-1500:]
+
+    def fail(at, idx, evt, inv, tail):
+        tid, lines = tests[at]
+        fl = Failure(tid, inv, idx, evt, lines, tail)
+        fl.lines2 = tests2[at][1] if tests2 is not None else None
+        failures.append(fl)
+
+    pos = 0
+    alldev = [d for _, d in known]
+    while pos < len(tests) and len(failures) < max_fail:
+        res = run(pos, dev)
+        if res is None:
+            break
+        k, idx, evt, inv, tail = res
+        at = pos + k
+        if not alldev:
+            fail(at, idx, evt, inv, tail)
+            pos = at + 1
             continue
-        raise Inconclusive("TLC failed on %s:\n%s" % (trace_path, r.out[-4000:]))
-    return failures, states, runs
+        # attribute: does a listed deviation explain this test?
+        explained = False
+        for kid, d in known:
+            if run(at, list(dev) + [d], count=1) is None:
+                hits.add(kid)
+                explained = True
+                break
+        if not explained:
+            fail(at, idx, evt, inv, tail)
+            pos = at + 1
+            continue
+        # the rest of the shard with every listed deviation on: only unexplained rejections remain
+        pos = at + 1
+        while pos < len(tests) and len(failures) < max_fail:
+            res2 = run(pos, list(dev) + alldev)
+            if res2 is None:
+                pos = len(tests)
+                break
+            k2, idx2, evt2, inv2, tail2 = res2
+            fail(pos + k2, idx2, evt2, inv2, tail2)
+            pos = pos + k2 + 1
+        break
+    return failures, stat["states"], stat["runs"], hits
 
 
 def validate_many(shard_traces, invs, wdir, seconds=None, **kw):
@@ -371,9 +409,10 @@ def validate_many(shard_traces, invs, wdir, seconds=None, **kw):
         return validate_trace(tp, invs, os.path.join(wdir, "val-%d" % i), second=seconds[i] if seconds else None, **kw)
     with ThreadPoolExecutor(max_workers=min(NCPU, max(1, len(shard_traces)))) as ex:
         res = list(ex.map(one, enumerate(shard_traces)))
-    failures, states, runs = [], 0, 0
-    for f, s, r in res:
+    failures, states, runs, hits = [], 0, 0, set()
+    for f, s, r, h in res:
         failures += f
         states += s
         runs += r
-    return failures, states, runs
+        hits |= h
+    return failures, states, runs, hits
